@@ -81,6 +81,7 @@ def check_case(lines, obs):
                     reasons.append(f"stock {name} uses an undefined dimension")
                 if proc != "-" and proc not in procs:
                     reasons.append(f"stock {name} names an undefined process")
+                cls = {"sdsmsub": "sdsm", "idsmsub": "idsm"}.get(cls, cls)
                 if cls != "fds" and lm == "none":
                     reasons.append(f"stock {name} omits the lifetime model its class requires")
                 if cls == "fds" and lm != "none":
@@ -106,30 +107,53 @@ def check_case(lines, obs):
             st = []
             for name, proc, ls, tl, cls, lm, solver in b["stocks"]:
                 L = ls.split(",")
+                cls = {"sdsmsub": "sdsm", "idsmsub": "idsm"}.get(cls, cls)
                 st.append((name, f"{name}:{cls}:{lm}:{solver if cls == 'sdsm' else 'none'}:{tl}:{proc if proc != '-' else 'none'}:"
                                  f"[{' '.join(by_letter[l] for l in L)}]"))
             pr = []
             for name, ls, vals in b["params"]:
                 L = [] if ls == "-" else ls.split(",")
                 pr.append((name, f"{name}:[{' '.join(by_letter[l] for l in L)}]:{canon_vals(vals)}"))
-            for group in (fl, st, pr):
-                if len({g[0] for g in group}) != len(group):
-                    break                      # colliding names: the property speaks of distinct names
-            else:
-                want = ("ok P " + ",".join(f"{p}:{i}" for i, p in enumerate(procs)) + " | F " + " ; ".join(x[1] for x in fl)
-                        + " | S " + " ; ".join(x[1] for x in st) + " | R " + " ; ".join(x[1] for x in pr))
-                got = ob
-                if ob.startswith("ok ") and " | R " in ob:
-                    head, rs = ob.split(" | R ", 1)
-                    canon = []
-                    for p in [x for x in rs.split(" ; ") if x]:
-                        nm, dm, vs = p.rsplit(":", 2) if p.count(":") >= 2 else (p, "", "")
-                        # split name:[dims]:vals — the dims part contains ':' so split at the brackets
-                        i, j = p.index(":["), p.rindex("]:")
-                        canon.append(f"{p[:i]}:{p[i + 1:j + 1]}:{canon_vals(p[j + 2:].split())}")
-                    got = head + " | R " + " ; ".join(canon)
-                if got != want:
-                    return fail(ln, "the built system has exactly the defined processes, flows, stocks and parameters", want, ob)
+            # compare section by section; a section whose names collide is outside the property
+            got_secs = {}
+            if ob.startswith("ok "):
+                body = ob[3:]
+                for key, nxt_ in (("P", " | F "), ("F", " | S "), ("S", " | R "), ("R", None)):
+                    if not body.startswith(key + " ") and body != key:
+                        got_secs = None
+                        break
+                    body = body[len(key) + 1:] if body.startswith(key + " ") else ""
+                    if nxt_ is None:
+                        got_secs[key] = body
+                    else:
+                        i = body.find(nxt_)
+                        if i < 0:
+                            got_secs = None
+                            break
+                        got_secs[key] = body[:i]
+                        body = body[i + 3:]
+            if got_secs is None or not ob.startswith("ok "):
+                return fail(ln, "the definition is valid: the system is built", "ok P … | F … | S … | R …", ob[:300])
+            want_secs = {"P": ",".join(f"{p}:{i}" for i, p in enumerate(procs)),
+                         "F": " ; ".join(x[1] for x in fl), "S": " ; ".join(x[1] for x in st), "R": " ; ".join(x[1] for x in pr)}
+            canon = []
+            for p_ in [x for x in got_secs["R"].split(" ; ") if x]:
+                if ":[" in p_ and "]:" in p_:
+                    i, j = p_.index(":["), p_.rindex("]:")
+                    canon.append(f"{p_[:i]}:{p_[i + 1:j + 1]}:{canon_vals(p_[j + 2:].split())}")
+                else:
+                    canon.append(p_)
+            got_secs["R"] = " ; ".join(canon)
+            groups = {"P": [(p,) for p in procs], "F": fl, "S": st, "R": pr}
+            what = {"P": "processes numbered in the listed order", "F": "one zero-valued flow per flow definition, from the named source to the named target, under the generated or overriding name, over the listed dimensions",
+                    "S": "one stock per stock definition of the requested class, lifetime model, solver, time letter and process",
+                    "R": "parameters under their names, over the listed dimensions"}
+            for key in ("P", "F", "S", "R"):
+                g = groups[key]
+                if len({x[0] for x in g}) != len(g):
+                    continue
+                if got_secs[key] != want_secs[key]:
+                    return fail(ln, what[key], want_secs[key], got_secs[key])
         elif op == "b_dimfile":
             fmt, name, letter, dt, nr, nc = t[1], t[2], t[3], t[4], int(t[5]), int(t[6])
             cells = [c for c in t[7:] if c]
